@@ -99,6 +99,8 @@ func checkC20(c *Ctx) {
 	}
 	checkSQLRules(c, l, "SQL-schema", "SQL-arity", "SQL-roles")
 	checkV2CheckpointRules(c, l)
+	c.rule("SIB-memoize", "FindMemoized agrees with Find", 2)
+	checkV2Memoize(c, l, "SIB-memoize")
 	ea := newErrAnalysisWith(c, l, sqliteOps())
 	ea.runE1E2E4("ERR-sqlite", "ERR-sqlite", "ERR-sqlite", func(fn *ssa.Function) bool {
 		p := l.pkgPathOf(fn)
@@ -301,4 +303,55 @@ func checkV2CheckpointRules(c *Ctx, l *Loaded) {
 		okP = okP && passed(r)
 	}
 	c.decide(R, "Tree.SaveVersion: a checkpointing commit always records the checkpoint in memory", l.pos(sv.Pos()), okP, "every success return passes checkpoints.Add or the `no checkpoint` edge", "a checkpointing commit can succeed without recording the checkpoint in the in-memory list")
+}
+
+// checkV2Memoize (shared by C19 and C20): VersionRange.FindMemoized is a pure
+// memoisation of Find — every value it returns is -1, the cached entry for
+// the requested version, or Find(version); the cache is filled only with
+// Find(version) under the key version.  (The shard a node is read from and
+// the checkpoint a version is replayed from are both found through it.)
+func checkV2Memoize(c *Ctx, l *Loaded, rule string) {
+	fm := l.Func("", "*VersionRange.FindMemoized")
+	find := l.Func("", "*VersionRange.Find")
+	if fm == nil || find == nil {
+		c.anchorMissing(rule, "VersionRange.FindMemoized / Find")
+		return
+	}
+	isFind := func(v ssa.Value) bool {
+		call, ok := stripTrivial(v).(*ssa.Call)
+		return ok && predStatic(find)(&call.Call) && roleOf(l, call.Call.Args[1], "", 0) == "arg0"
+	}
+	isCached := func(v ssa.Value) bool {
+		v = stripTrivial(v)
+		if e, ok := v.(*ssa.Extract); ok {
+			v = e.Tuple
+		}
+		lk, ok := v.(*ssa.Lookup)
+		return ok && roleOf(l, lk.Index, "", 0) == "arg0" && strings.HasSuffix(roleOf(l, lk.X, "", 0), "recv.cache")
+	}
+	ok := true
+	what := ""
+	for _, r := range returnsOf(fm) {
+		if isRecoverReturn(r) {
+			continue
+		}
+		v := retVal(r, 0)
+		if k, isK := constInt(v); isK && k == -1 {
+			continue
+		}
+		if isFind(v) || isCached(v) {
+			continue
+		}
+		ok, what = false, roleOf(l, v, "", 0)
+	}
+	c.decide(rule, "FindMemoized returns -1, the cached entry or Find(version)", l.pos(fm.Pos()), ok, "pure memoisation", "FindMemoized returns `"+what+"`, which is not Find(version): nodes / checkpoints are looked up in the wrong shard")
+	okS := true
+	allInstrs(fm, func(in ssa.Instruction) {
+		if mu, isMU := in.(*ssa.MapUpdate); isMU {
+			if !(isFind(mu.Value) && roleOf(l, mu.Key, "", 0) == "arg0") {
+				okS = false
+			}
+		}
+	})
+	c.decide(rule, "FindMemoized caches Find(version) under version", l.pos(fm.Pos()), okS, "cache[version] = Find(version)", "the memo table is filled with something other than Find(version) under the key version")
 }
